@@ -1960,6 +1960,43 @@ func (g *dg) emitPromotedMethods() {
 	}
 }
 
+// emitConstrainedGenericInterface adds a generic interface with a constrained
+// type parameter, a type that has the interface's method by name but with a
+// type that violates the constraint (or only the first of its two methods),
+// and that also implements a plain interface through unexported methods
+// reached only through that interface.
+func (g *dg) emitConstrainedGenericInterface() {
+	k := g.rng.IntN(1000)
+	num, cod, shp := fmt.Sprintf("cgNumber%d", k), fmt.Sprintf("cgCodec%d", k), fmt.Sprintf("cgShape%d", k)
+	lab, ic := fmt.Sprintf("cgLabel%d", k), fmt.Sprintf("cgIntCodec%d", k)
+	enc := dgPick(g, []string{"encode", "put", "emit"})
+	two := g.p(40) // the generic interface has a second method the label type lacks
+	g.add(g.normalFile(), fixed("type "+num+" interface {\n\t~int | ~int64 | ~float64\n}", "cg-constraint"))
+	if two {
+		g.add(g.normalFile(), fixed("type "+cod+"[T "+num+"] interface {\n\t"+enc+"(T) []byte\n\tcgReset()\n}", "cg-generic-iface"))
+	} else {
+		g.add(g.normalFile(), fixed("type "+cod+"[T "+num+"] interface {\n\t"+enc+"(T) []byte\n}", "cg-generic-iface"))
+	}
+	g.add(g.normalFile(), fixed("type "+shp+" interface {\n\tcgArea() float64\n\tcgName() string\n}", "cg-plain-iface"))
+	g.add(g.normalFile(), fixed("type "+lab+" struct{ s string }", "cg-label"))
+	argT := "string"
+	if two && g.p(50) {
+		argT = "int" // satisfies the constraint; the missing second method is what fails
+	}
+	g.add(g.normalFile(), fixed("func (l *"+lab+") "+enc+"(v "+argT+") []byte { return []byte(l.s) }", "cg-label-method"))
+	g.add(g.normalFile(), fixed("func (l *"+lab+") cgArea() float64 { return 0 }", "cg-label-method"))
+	g.add(g.normalFile(), fixed("func (l *"+lab+") cgName() string { return l.s }", "cg-label-method"))
+	g.add(g.normalFile(), fixed("type "+ic+" struct{}", "cg-impl"))
+	g.add(g.normalFile(), fixed("func ("+ic+") "+enc+"(v int) []byte { return []byte{byte(v)} }", "cg-impl-method"))
+	if two {
+		g.add(g.normalFile(), fixed("func ("+ic+") cgReset() {}", "cg-impl-method"))
+	}
+	g.add(g.normalFile(), fixed(fmt.Sprintf("func CgNew%d(s string) interface{} { return &%s{s: s} }", k, lab), "cg-use"))
+	g.add(g.normalFile(), fixed(fmt.Sprintf("func CgDescribe%d(v interface{}) (string, float64) {\n\tif s, ok := v.(%s); ok {\n\t\treturn s.cgName(), s.cgArea()\n\t}\n\treturn \"\", 0\n}", k, shp), "cg-use"))
+	g.add(g.normalFile(), fixed(fmt.Sprintf("func CgEncode%d[T %s](c %s[T], v T) []byte { return c.%s(v) }", k, num, cod, enc), "cg-use"))
+	g.add(g.normalFile(), fixed(fmt.Sprintf("func CgEncodeInt%d(v int) []byte { return CgEncode%d[int](%s{}, v) }", k, k, ic), "cg-use"))
+}
+
 func (g *dg) render() []*dgRendered {
 	out := make([]*dgRendered, len(g.files))
 	for fi, fb := range g.files {
@@ -2198,6 +2235,9 @@ func DeclGen(rng *rand.Rand, opt DeclOptions) *DeclPkg {
 	}
 	if g.p(50) {
 		g.emitPromotedMethods()
+	}
+	if g.p(35) {
+		g.emitConstrainedGenericInterface()
 	}
 	// shuffle declaration order inside files (generation order is types-first otherwise)
 	g.rng.Shuffle(len(g.chunks), func(i, j int) { g.chunks[i], g.chunks[j] = g.chunks[j], g.chunks[i] })
